@@ -5,8 +5,8 @@ from engine import tlc
 from engine.core import shard_map
 from engine.tlc import MachineryError
 
-CFGS = {"quick": ["MC_TifaFlow_q.cfg", "MC_TifaFlow_typed_q.cfg", "MC_TifaFlow_cond_q.cfg"],
-        "thorough": ["MC_TifaFlow_t.cfg", "MC_TifaFlow_typed_t.cfg", "MC_TifaFlow_cond_t.cfg"]}
+CFGS = {"quick": ["MC_TifaFlow_q.cfg", "MC_TifaFlow_typed_q.cfg", "MC_TifaFlow_cond_q.cfg", "MC_TifaFlow_deep_q.cfg"],
+        "thorough": ["MC_TifaFlow_t.cfg", "MC_TifaFlow_typed_t.cfg", "MC_TifaFlow_cond_t.cfg", "MC_TifaFlow_deep_q.cfg"]}
 LOOP_CFGS = {"quick": ["MC_TifaLoops_q.cfg", "MC_TifaLoops_calls_q.cfg"], "thorough": ["MC_TifaLoops_t.cfg", "MC_TifaLoops_calls_q.cfg"]}
 
 
